@@ -225,6 +225,17 @@ example : ((okOf ((RState.init 1 256 65535 none).addQuestion [[119,119,119],[101
     (s1.out.length, s2.out.length)) = some (44, 128) := by
   rfl
 
+/-- a block so large that the padding would not fit a PADDING option (more than 65535 octets: 16-bit option length) is
+`TooBig`, raised by `add_opt` before anything is written, marked or counted (repair 2d35a76; before it the option encoder's
+`struct.error` escaped) -/
+theorem padding_too_long_is_too_big (s : RState) (o : EOpt) (pad a b : Nat) (hpad : pad ≠ 0)
+    (hbig : padLen s.out.length pad a b > 65535) : s.addOpt o pad a b = .tooBig s := by
+  unfold RState.addOpt
+  rw [if_pos ⟨hpad, hbig⟩]
+
+-- non-vacuity: block 70000 on a renderer holding the header only
+example : padLen (RState.init 1 0 65535 none).out.length 70000 15 0 = 69973 := by decide
+
 /-- "rendering either raises the too-big error or …": when the OPT and TSIG reserves alone exceed the clamped limit
 nothing is rendered and the outcome is `TooBig` (repair 1c55079; formerly `ValueError` from `Renderer.reserve`). -/
 theorem reserve_too_big (m : Message) (lim : Nat) (pt : Bool) (b : Nat) (hb : m.tsigReserve = .ok b)
